@@ -180,7 +180,12 @@ def make_resolver(coord, bundle=None):
                 raise UserError(tf[0], extensions=dict(tf[1]), **preset)
             if kind == "raise_odd":
                 from simv.model.exec import EmptyMessageError, FrozenError, PathCarryingError, PayloadError, UnprintableError
-                which = zlib.crc32(repr(path).encode()) % 5
+                crc = zlib.crc32(repr(path).encode())
+                if crc % 11 == 7:
+                    # what `TABLE[args["id"]]` raises for an unknown key: a built-in exception whose first
+                    # argument is not a string (its str() is the repr of the key)
+                    raise KeyError(crc % 1000 if crc % 2 else (crc % 7, "k"))
+                which = crc % 5
                 if which == 4:
                     raise FrozenError("odd " + tok)
                 if which == 0:
